@@ -659,6 +659,8 @@ const SETUPS: &[(&str, &[&str])] = &[
     ("frozen-shared-grown", &["mcap 16", "extend 0 010203", "splitoff 0 8", "drop 1", "extend 0 0405060708", "freeze 0"]),
     ("mut-arc-offset", &["mcap 16", "extend 0 0102030405060708090a", "splitto 0 3"]),
     ("two-full", &["mzero 8", "mzero 8"]),
+    // two full neighbours (adjacent under the packing allocator), each promoted to the shared form on its own control block
+    ("two-full-arc", &["mzero 8", "mzero 8", "splitoff 0 8", "drop 2", "splitoff 1 8", "drop 3"]),
     ("owner-zst", &["ownerz"]),
     ("mut-big-spare", &["mcap 4096", "extend 0 0102030405060708090a0b0c0d0e0f1011121314"]),
 ];
